@@ -34,7 +34,15 @@ Names == DOMAIN twr.secs
 DiffT(secs, among) == {sec \in among : secs[sec][1] # twr.secs[sec][1]}
 DiffX(secs, among) == {sec \in among : secs[sec][2] # twr.secs[sec][2]}
 \* token names of sections both versions can represent (views = embedded skin profiles only up to TBC)
-RepNames(va, vb) == {sec \in Names : sec # "views" \/ "views" \in Representable(va, vb)}
+RepNames(va, vb) == {sec \in Names : sec \notin {"views", "views_submeshes"} \/ "views" \in Representable(va, vb)}
+\* skin / anim conversions (SkinFile::convert, AnimFile::convert): the content every layout can hold, and when the
+\* conversion is the identity (old skin layout up to WotLK, new layout from Cataclysm; legacy .anim up to WoD, MAOF from Legion)
+OldSkinVers == {"Vanilla", "TBC", "WotLK"}
+ContentNames == CASE tcase.kind = "skin" -> {"indices", "triangles", "bone_indices", "submeshes", "batches"}
+                  [] tcase.kind = "anim" -> {"sections", "nsections", "ids"}
+                  [] OTHER -> Names
+SameConv(e) == CASE tcase.kind = "skin" -> (tcase.fmt = "skin_old" /\ e.to \in OldSkinVers) \/ (tcase.fmt = "skin_new" /\ e.to = e.from /\ e.to \notin OldSkinVers)
+                 [] OTHER -> e.from = e.to
 
 \* ---- layer L ------------------------------------------------------------------------------------------
 Pop(arrs) == {j \in 1..Len(arrs) : arrs[j][2] > 0}
@@ -82,8 +90,8 @@ T_Rewrite(e) == /\ e.ev = "Rewrite" /\ tph = "parsed"
 
 T_Convert(e) == /\ e.ev = "Convert" /\ tph \in {"written", "parsed", "dead"} /\ twr.res = "ok" /\ e.from = tcase.ver
                 /\ UNCHANGED <<tcase, twr, tph, tpm>>
-                /\ LET samev == e.from = e.to
-                       rep == RepNames(e.from, e.to)
+                /\ LET samev == SameConv(e)
+                       rep == IF tcase.kind = "m2" THEN RepNames(e.from, e.to) ELSE ContentNames
                        why == IF e.res # "ok" THEN {<<"convert-res", e.res>>}
                               ELSE (IF samev THEN Item("convert-same", DiffT(e.secs, Names)) ELSE Item("convert", DiffX(e.secs, rep)))
                                    \cup (IF e.wres # "ok" THEN (IF IsErr(e.wres) /\ ~samev THEN {} ELSE {<<"convert-write-res", e.wres>>})
